@@ -749,3 +749,47 @@ Proof. repeat split. Qed.
 
 Example ex_no_identity_sent : forall k, In k identity_keys -> client_sent [(k_cookie, ex_cookie_line)] k = false.
 Proof. intros k Hk. cbn in Hk. destruct Hk as [<-|[<-|[<-|[<-|[]]]]]; reflexivity. Qed.
+
+(* ------------------------------------------------------------------------------------------ *)
+(* refresh / revalidation due: the asserted session is the re-saved one *)
+
+Definition saved_or_presented (allowed : list str) (s : session) (d : due) : session :=
+  match resaved_session allowed s d with Some s' => s' | None => s end.
+
+Lemma asserted_is_resaved allowed s d : asserted_session allowed s d = saved_or_presented allowed s d.
+Proof. destruct d; reflexivity. Qed.
+
+Lemma due_auth_headers scrub cfg allowed s d client :
+  let s' := saved_or_presented allowed s d in
+  let h := to_reverse_proxy scrub cfg (Authenticated (asserted_session allowed s d)) client in
+  h_get k_xfu h = [s_user s'] /\ h_get k_xfe h = [s_email s'] /\ h_get k_xfg h = [join [44] (s_groups s')] /\
+  (scrub = true -> h_get k_xfat h = allowed_token cfg s').
+Proof.
+  cbn zeta. rewrite <- asserted_is_resaved.
+  destruct (trp_auth_headers scrub cfg (asserted_session allowed s d) client) as [Hu [He Hg]].
+  repeat split; try assumption. intros ->.
+  apply (upstream_token_scrubbed cfg (asserted_session allowed s d) client).
+Qed.
+
+(* spelled out for a refresh: groups are the provider's fresh answer filtered by the allowed
+   groups, the token is the rotated one; nothing of the presented session's groups / token is left *)
+Lemma refresh_headers cfg allowed s tok ug client :
+  let h := to_reverse_proxy true cfg (Authenticated (asserted_session allowed s (RefreshDue tok ug))) client in
+  h_get k_xfu h = [s_user s] /\ h_get k_xfe h = [s_email s] /\
+  h_get k_xfg h = [join [44] (matched_groups allowed ug)] /\
+  (pass_access_token cfg = true -> tok <> [] -> h_get k_xfat h = [tok]).
+Proof.
+  cbn zeta. destruct (due_auth_headers true cfg allowed s (RefreshDue tok ug) client) as [Hu [He [Hg Ht]]].
+  repeat split; try assumption. intros Hp Hne. rewrite (Ht eq_refl). unfold allowed_token, token_enabled.
+  cbn. rewrite Hp. destruct tok; [congruence | reflexivity].
+Qed.
+
+Example ex_refresh_changes_groups :
+  let allowed := [[101]; [111]; [116]] in                      (* e, o, t *)
+  let s := {| s_user := [98]; s_email := [98;64;99]; s_groups := [[116]; [101]]; s_token := [49] |} in
+  let d := RefreshDue [50] [[116]; [111]; [120]] in            (* rotated token "2"; profile says t, o, x *)
+  due_succeeds allowed d = true /\
+  s_groups (asserted_session allowed s d) = [[116]; [111]] /\ s_token (asserted_session allowed s d) = [50] /\
+  h_get k_xfg (upstream true {| cookie_name := [95;115]; pass_access_token := true; inject := [] |}
+                        (Authenticated (asserted_session allowed s d)) []) = [[116;44;111]].
+Proof. repeat split. Qed.
